@@ -24,6 +24,10 @@ def showNow : ShowCfg :=
     boxFmt := CelloGen.Fmt.boxShowFmt, nullFmt := CelloGen.Fmt.nullShowFmt, defaultFmt := CelloGen.Fmt.defaultShowFmt
     typeOff := CelloGen.Fmt.typeShowReturnsOffset }
 
+/-- the OLD variant of the Show instances: `Type_Show` BEFORE fix 0046a69, `return format_to(output, pos, "%s", Type_Builtin_Name(self));`
+    — the number of characters written instead of the new position (kept for the regression witness corpus/fmt_fixed_type_show.ops) -/
+def showOld : ShowCfg := { showNow with typeOff := true }
+
 /-- the kinds of the dispatch `if`s that fire for conversion character `c`, in source order -/
 def firing (cfg : Cfg) (c : Char) : List Kind := (cfg.disp.filter fun mk => mk.1.hit c).map (·.2)
 
